@@ -151,6 +151,11 @@ def _pool(r, i):
     # the same, and a call whose argument is another constexpr call
     for gain in r.sample([2, 3, 5], 2):
         P.append(dict(src=HEADER + f"@constexpr\ndef cgain():\n    return {gain}\n@constexpr\ndef setpoint(x):\n    return x * cgain() + 1\ndb.Setting = setpoint(50)\nd0.Setting = setpoint(cgain())\n", opts=opts_from_bits(r.randrange(256))))
+    # a constexpr result that is a list, both iterated and indexed with a run-time index (jump table for >= 6
+    # entries, odd lengths are padded): the cached list object must not change between compiles
+    n = r.choice([5, 7, 7, 9])
+    vals = ", ".join(str(10 * (k + 1)) for k in range(n))
+    P.append(dict(src=HEADER + f"@constexpr\ndef levels():\n    return [{vals}]\nT = levels()\nfor v in T:\n    db.Setting = v\n    yield_()\nk = db.On\ndb.Mode = T[k]\n", opts=opts_from_bits(r.randrange(256))))
     # pragma programs: the options object of this request is shared with the next request of the history
     for pr in r.sample(["# pytrapic: compact, remove-labels\n", "# pytrapic: no-inline-functions, use-push-pop-functions\n", "# pytrapic: no-append-version, generated_comments\n"], 2):
         P.append(dict(src=HEADER + pr + "def f(a):\n    db.Setting = a + HASH(\"x\")\nf(d0.Setting)\n", opts=opts_from_bits(r.randrange(256)), share_options=True))
